@@ -4,6 +4,7 @@ import Dagrt.Driver.C10
 import Dagrt.Driver.C04
 import Dagrt.Driver.C05
 import Dagrt.Driver.C08
+import Dagrt.Driver.C02
 open Lean Dagrt.Driver
 
 def dispatch (j : Json) : R Json := do
@@ -11,6 +12,7 @@ def dispatch (j : Json) : R Json := do
   match op.splitOn "." with
   | ["C05", o] => C05.handle o j
   | ["C06", o] => C06.handle o j
+  | ["C02", o] => C02.handle o j
   | ["C04", o] => C04.handle o j
   | ["C08", o] => C08.handle o j
   | ["C10", o] => C10.handle o j
